@@ -62,7 +62,9 @@ class FPFormat:
         """Non-differentiably quantise the given tensor in this format."""
         absmax = self.max_absolute_value
         downscale = 2.0 ** (127 - 2 ** (self.exponent_bits - 1))
-        mask = torch.tensor(2 ** (23 - self.mantissa_bits) - 1, device=x.device)
+        mask = torch.tensor(
+            2 ** (23 - self.mantissa_bits) - 1, dtype=torch.int32, device=x.device
+        )
         if self.rounding == "stochastic":
             srbitsbar = 23 - self.mantissa_bits - self.srbits
             offset = (
